@@ -26,8 +26,8 @@ static void register_properties()
 {
   using namespace rc;
   pbt::property<SeqCase>("roundtrip_truncation", 1500,
-      gen::build<SeqCase>(gen::set(&SeqCase::vals, pbt::vec(genVal(), 12)), gen::set(&SeqCase::viewCounts, pbt::vec(pbt::range<int>(0, 400), 6))), runSeq);
-  auto op = gen::tuple(gen::weightedElement<int>({{4, 0}, {4, 1}, {1, 2}}), pbt::range<int>(0, 5), pbt::range<long long>(0, (1ll << 40)));
+      gen::build<SeqCase>(gen::set(&SeqCase::vals, pbt::vec(genVal(), 12)), gen::set(&SeqCase::viewCounts, pbt::vec(gen::weightedOneOf<int>({{3, pbt::range<int>(0, 400)}, {1, pbt::range<int>(1000, 1200)}}), 6))), runSeq);
+  auto op = gen::tuple(gen::weightedElement<int>({{4, 0}, {4, 1}, {1, 2}}), pbt::range<int>(0, 8), pbt::range<long long>(0, (1ll << 40)));
   pbt::property<FixedCase>("fixed_writer_model", 6000,
       gen::build<FixedCase>(gen::set(&FixedCase::capacity, pbt::range<int>(0, 64)), gen::set(&FixedCase::ops, pbt::vec(op, 12))), runFixed);
 }
